@@ -197,6 +197,13 @@ def run_case(ctx, h, tmp):
                     t.eSet(attr.name, 4242)
                     if d.eGet(attr) != 4242:
                         problems.append(('write-through', f'object {i}.{fname}: a write through the reference did not reach the instance'))
+                    # ... and so does `del`: the instance reads its default again
+                    try:
+                        delattr(t, attr.name)
+                        if d.eGet(attr) == 4242:
+                            problems.append(('write-through', f'object {i}.{fname}: `del` through the reference did not reach the instance'))
+                    except Exception as e:
+                        problems.append(('write-through', f'object {i}.{fname}: `del value.{attr.name}` through the reference raised {type(e).__name__}'))
                     break
         # deletion through a reference acts on the instance: whichever way the target is deleted (through the reference
         # value or through the instance found by direct navigation), it leaves its container and nothing in the
